@@ -647,6 +647,92 @@ func checkStreams(s *hx.Seq) {
 	}
 }
 
+// checkMaskedStreams: equivalence together with a read mask - the subscriber holds the
+// PROJECTED value, so a write that changes only fields outside the mask is equivalent to
+// what it holds.
+func checkMaskedStreams(s *hx.Seq) {
+	type w struct {
+		f float32
+		b string
+	}
+	alpha := []w{{1, "x"}, {1, "y"}, {2, "x"}, {2, "y"}}
+	var seqs [][]w
+	var rec func(cur []w)
+	rec = func(cur []w) {
+		if len(cur) > 0 {
+			seqs = append(seqs, append([]w{}, cur...))
+		}
+		if len(cur) == 3 {
+			return
+		}
+		for _, a := range alpha {
+			rec(append(cur, a))
+		}
+	}
+	rec(nil)
+	for _, sq := range seqs {
+		for _, kind := range []string{"value", "collection"} {
+			s.Eval(1)
+			s.Trans(len(sq))
+			ctx, cancel := context.WithCancel(context.Background())
+			var got []float32
+			done := make(chan struct{})
+			const sentinel = 1000
+			mask := resource.WithReadPaths(&T{}, "default_float")
+			mk := func(x w) *T { return &T{DefaultFloat: x.f, DefaultString: x.b} }
+			if kind == "value" {
+				v := resource.NewValue(resource.WithInitialValue(mk(w{1, "x"})), resource.WithNoDuplicates())
+				ch := v.Pull(ctx, resource.WithBackpressure(true), mask)
+				go func() {
+					for e := range ch {
+						f := e.Value.(*T).DefaultFloat
+						if f == sentinel {
+							break
+						}
+						got = append(got, f)
+					}
+					close(done)
+				}()
+				for _, x := range sq {
+					v.Set(mk(x))
+				}
+				v.Set(mk(w{sentinel, "s"}))
+			} else {
+				c := resource.NewCollection(resource.WithInitialRecord("a", mk(w{1, "x"})), resource.WithNoDuplicates())
+				ch := c.Pull(ctx, resource.WithBackpressure(true), mask)
+				go func() {
+					for e := range ch {
+						f := e.NewValue.(*T).DefaultFloat
+						if f == sentinel {
+							break
+						}
+						got = append(got, f)
+					}
+					close(done)
+				}()
+				for _, x := range sq {
+					c.Update("a", mk(x))
+				}
+				c.Update("a", mk(w{sentinel, "s"}))
+			}
+			<-done
+			cancel()
+			held := float32(1)
+			want := []float32{1}
+			for _, x := range sq {
+				if x.f != held {
+					want = append(want, x.f)
+					held = x.f
+				}
+			}
+			if fmt.Sprint(got) != fmt.Sprint(want) {
+				s.Fail(fmt.Sprintf("stream-equivalence-masked %s writes=%v", kind, sq), fmt.Sprintf("WithNoDuplicates, read mask default_float, seed 1/x: delivered %v, expected %v (the subscriber holds the projected value)", got, want), map[string]any{"stream": true})
+			}
+			s.State(fmt.Sprintf("masked %s %v", kind, sq))
+		}
+	}
+}
+
 func main() {
 	h := hx.New("C16")
 	h.Seq("pairs", func(s *hx.Seq) {
@@ -734,6 +820,7 @@ func main() {
 			return
 		}
 		checkStreams(s)
+		checkMaskedStreams(s)
 		s.Distinct("value")
 		s.Distinct("collection")
 		s.Sample("Value and Collection with WithMessageEquivalence(Equal(FloatValueApprox(0,0.1))): all write sequences of length <=3 over {1, 1.0625, 1.125, 1.25}, delivered values compared with the reference")
